@@ -51,6 +51,8 @@ def one_ts(ts, info, res, stats, cases, impls):
                                         f"({info['fired']})", replay))
         return
     c, o = sc.case_from_capture(calls)
+    c["flags"] = np.array(ts.nodes_flags, dtype=np.int64)          # node-table part of the model (`outFlags`)
+    o["flags"] = np.array(out.nodes_flags, dtype=np.int64)
     cases.append(c)
     impls.append(o)
     for kind, what in sc.ts_oracle(ts, out, o["order"], o["split"]):
